@@ -106,7 +106,7 @@ def map_variance_kf1(n, f, s, prior, mu_new, relevance, alpha_fixed, count_floor
     if relevance is not None:
         a = n / (n + relevance)
     else:
-        a = np.full(len(n), float(alpha_fixed))
+        a = np.full(len(n), float(alpha_fixed)) if np.ndim(alpha_fixed) == 0 else np.asarray(alpha_fixed, float)
     no_ev = n < count_floor
     with np.errstate(all="ignore"):
         exx = s / n[:, None]
